@@ -30,8 +30,17 @@ func c07Extra(tier string) int {
 	return 12
 }
 
+// c07Stride: the thorough tier samples every 6th batch of the large depth-2 space (each tree
+// costs up to 2^6 subsets x 3 styles); the quick tier enumerates its space completely.
+func c07Stride(tier string) int {
+	if tier == "thorough" {
+		return 6
+	}
+	return 1
+}
+
 func (c07) Batches(tier string, seed int64) int {
-	return nBatches(c07Space(tier).Size()) + c07Extra(tier) + 1
+	return nBatches(c07Space(tier).Size())/c07Stride(tier) + c07Extra(tier) + 1
 }
 
 // statement examples: (juxtaposed, explicit)
@@ -66,10 +75,10 @@ func (p c07) RunBatch(ctx *core.Ctx, batch int) {
 	mon.Install()
 	defer monFlush(ctx)
 	sp := c07Space(ctx.Tier)
-	nEnum := nBatches(sp.Size())
+	nEnum := nBatches(sp.Size()) / c07Stride(ctx.Tier)
 	switch {
 	case batch < nEnum:
-		lo, hi := batchRange(sp.Size(), batch)
+		lo, hi := batchRange(sp.Size(), batch*c07Stride(ctx.Tier))
 		for i := lo; i < hi; i++ {
 			t := sp.At(i)
 			if len(qt.AndNodes(t)) == 0 {
